@@ -7,6 +7,7 @@ are tied to the real code by the differential run (real handleRequest on a socke
 processor, scripted node replies).
 -/
 import SamVerif.Proofs.ScanIter
+import SamVerif.Gen.ScanText
 namespace SamVerif.Props.C18
 open SamVerif SamVerif.Gen.Scan SamVerif.Resp SamVerif.Scan SamVerif.Proofs.Resp SamVerif.Proofs.Scan
 open SamVerif.Proofs.ScanIter
@@ -75,9 +76,38 @@ example : AllPaths [node0, node1] [([[97], [98]], 2), ([[99]], 1)] :=
   .cons (.more 0 7 [[97]] [[98]] 1 (by simp [node0]) (by decide) (by decide) (.last 7 [[98]] (by simp [node0])))
     (.cons (.last 0 [[99]] (by simp [node1])) .nil)
 
+/-- **The code the model was written against.** The statements of the modelled functions,
+regenerated from the current source on every run, are the ones the model was written against;
+any edit to one of them makes this obligation fail and starts a search for a failing input. -/
+theorem code_matches_model :
+    Gen.ScanText.newScanRequest =
+      ["body := raw.Body()",
+      "if len(body.Array) < 2 { return nil, errors.New(invalidRequest) }",
+      "cursor, err := btoi64(body.Array[1].Text)",
+      "if err != nil { return nil, errors.New(invalidCursor) }",
+      "r := &scanRequest{raw: raw}",
+      "r.nodeIdx, r.nodeCursor = r.parseCursor(uint64(cursor))",
+      "return r, nil"] ∧
+    Gen.ScanText.convert =
+      ["sreq = newSimpleRequest(r.raw.Body())",
+      "sreq.RegisterHook(func(req *simpleRequest) { r.raw.SetResponse(req.Response()) })",
+      "sreq.Body().Array[1].Text = []byte(strconv.FormatUint(r.nodeCursor, 10))",
+      "sreq.RegisterHook(func(req *simpleRequest) { resp := req.Response() if resp.Type != Array || len(resp.Array) == 0 { return } nodeNextCursor, err := btoi64(resp.Array[0].Text) if err != nil { return } if nodeNextCursor == 0 { r.nodeIdx++ } nextCursor := r.genCursor(r.nodeIdx, uint64(nodeNextCursor)) resp.Array[0].Text = []byte(strconv.FormatUint(nextCursor, 10)) })",
+      "return r.nodeIdx, sreq"] ∧
+    Gen.ScanText.handleScan =
+      ["scanReq, err := newScanRequest(req)",
+      "if err != nil { req.SetResponse(newError(err.Error())) return }",
+      "nodeIdx, simpleReq := scanReq.Convert()",
+      "hosts := u.Hosts()",
+      "if nodeIdx >= uint16(len(hosts)) { req.SetResponse(respScanTerm) return }",
+      "host := hosts[nodeIdx]",
+      "u.MakeRequestToHost(host.Addr, simpleReq)"] := by
+  refine ⟨rfl, rfl, rfl⟩
+
 end SamVerif.Props.C18
 
 #print axioms SamVerif.Props.C18.parse_gen
 #print axioms SamVerif.Props.C18.past_last_is_terminal
 #print axioms SamVerif.Props.C18.args_pass_through
 #print axioms SamVerif.Props.C18.scan_terminates_covers
+#print axioms SamVerif.Props.C18.code_matches_model
